@@ -402,8 +402,34 @@ func genIP(t *rapid.T) string {
 	return fmt.Sprintf("%d.%d.%d.%d", rapid.IntRange(0, 255).Draw(t, "a"), rapid.IntRange(0, 255).Draw(t, "b"), rapid.IntRange(0, 255).Draw(t, "c"), rapid.IntRange(0, 255).Draw(t, "d"))
 }
 
+// other notations for an IPv4 endpoint that general-purpose parsers accept (IPv6 forms of an IPv4 address written in
+// hexadecimal, integers, short dotted forms, host names ...): none of them contains a dotted quad, all must be rejected
+func genOtherNotation(t *rapid.T) string {
+	a, b, c, d := rapid.IntRange(0, 255).Draw(t, "a"), rapid.IntRange(0, 255).Draw(t, "b"), rapid.IntRange(0, 255).Draw(t, "c"), rapid.IntRange(0, 255).Draw(t, "d")
+	v := uint32(a)<<24 | uint32(b)<<16 | uint32(c)<<8 | uint32(d)
+	hi, lo := v>>16, v&0xffff
+	host := rapid.SampledFrom([]string{
+		fmt.Sprintf("::ffff:%x:%x", hi, lo), fmt.Sprintf("::FFFF:%X:%X", hi, lo), fmt.Sprintf("0:0:0:0:0:ffff:%x:%x", hi, lo), fmt.Sprintf("::%x:%x", hi, lo), fmt.Sprintf("64:ff9b::%x:%x", hi, lo),
+		fmt.Sprintf("2002:%x:%x::1", hi, lo), "::1", "::", "fe80::1", "fe80::1%eth0", fmt.Sprintf("2001:db8::%x", lo),
+		fmt.Sprintf("%d", v), fmt.Sprintf("0x%08x", v), fmt.Sprintf("0%o", v), fmt.Sprintf("%d.%d.%d", a, b, c<<8|d), fmt.Sprintf("%d.%d", a, v&0xffffff), fmt.Sprintf("%d.%d.%d", a, b, c),
+		fmt.Sprintf("0x%x.0x%x.0x%x.0x%x", a, b, c, d), fmt.Sprintf("%d.%d.%d.+%d", a, b, c, d), fmt.Sprintf("%d.-%d.%d.%d", a, b, c, d), fmt.Sprintf("%d,%d,%d,%d", a, b, c, d), fmt.Sprintf("%d.%d.%d.", a, b, c),
+		fmt.Sprintf("%d %d %d %d", a, b, c, d), fmt.Sprintf("%d.%d.%d.\u0664", a, b, c), "\uff11.\uff12.\uff13.\uff14", "localhost", "controller.local", "any", "", " ", "*", "udp", "0"}).Draw(t, "host")
+	switch rapid.IntRange(0, 3).Draw(t, "form") {
+	case 0:
+		return host
+	case 1:
+		return "[" + host + "]:" + rapid.SampledFrom([]string{"0", "1", "60000", "60001", "65535"}).Draw(t, "port")
+	case 2:
+		return host + ":" + rapid.SampledFrom([]string{"0", "1", "60000", "60001", "65535"}).Draw(t, "port")
+	}
+	return "[" + host + "]"
+}
+
 func genCase(t *rapid.T) aCase {
 	role := rapid.SampledFrom(roles).Draw(t, "role")
+	if rapid.IntRange(0, 7).Draw(t, "other.notation") == 0 {
+		return aCase{Role: role, S: genOtherNotation(t)}
+	}
 	s := genIP(t)
 	switch rapid.IntRange(0, 3).Draw(t, "port") {
 	case 0:
